@@ -21,17 +21,42 @@ def r1_funnel(rep, src):
     m = src.mod(M)
     pe = src.func(M + ':Changelog._parse_error')
     rep.saw_func(pe)
-    body = [s for s in pe.node.body if not (isinstance(s, ast.Expr) and isinstance(s.value, ast.Constant))]
+    from .. import paths
     ps = pe.params()
     msg, strict = ps[-2], ps[-1]
-    ok = len(body) == 2 and isinstance(body[0], ast.If) and norm(body[0].test) == strict and len(body[0].body) == 1 \
-        and isinstance(body[0].body[0], ast.Raise) and norm(body[0].body[0].exc) == 'ChangelogParseError(%s)' % msg and not body[0].orelse \
-        and norm(body[1]) == 'warnings.warn(%s)' % msg
-    if ok:
-        rep.ok('C15.R1', pe.site, '_parse_error = raise if strict else warn', 'if strict: raise ChangelogParseError(message); warnings.warn(message)')
+    # all paths of the funnel with the strict flag decided: strict → raises ChangelogParseError(message) without warning first;
+    # lenient → exactly one warnings.warn(message), no exception
+    why = None
+    for flag in (True, False):
+        def atom(e, flag=flag):
+            return flag if isinstance(e, ast.Name) and e.id == strict else None
+        pths = paths.function_paths(pe.node, paths.Folder(None, atom))
+        if not pths:
+            why = 'no path'
+        for p_ in pths:
+            if p_.conds:
+                why = why or 'the outcome depends on %s, not only on the strict flag' % norm(p_.conds[0][0])[:40]
+            warns = [ev for ev in p_.events if ev[0] == 'effect' and isinstance(ev[1], ast.Expr) and isinstance(ev[1].value, ast.Call)
+                     and norm(ev[1].value.func) == 'warnings.warn']
+            other = [ev for ev in p_.events if ev not in warns]
+            if flag:
+                if p_.outcome[0] != 'raise' or norm(p_.outcome[1]) != 'ChangelogParseError(%s)' % msg:
+                    why = why or 'in strict mode the funnel %s instead of raising ChangelogParseError(message)' % (
+                        'raises ' + norm(p_.outcome[1])[:40] if p_.outcome[0] == 'raise' else 'returns')
+                if warns:
+                    why = why or 'in strict mode the funnel warns before raising'
+            else:
+                if p_.outcome[0] == 'raise':
+                    why = why or 'in lenient mode the funnel raises %s' % norm(p_.outcome[1])[:40]
+                if len(warns) != 1 or [norm(a_) for a_ in warns[0][1].value.args][:1] != [msg]:
+                    why = why or 'in lenient mode the funnel does not issue exactly one warnings.warn(message)'
+            if other:
+                why = why or 'the funnel has another effect: %s' % norm(other[0][1])[:50]
+    if why is None:
+        rep.ok('C15.R1', pe.site, '_parse_error = raise if strict else warn', 'strict → ChangelogParseError(message); lenient → warnings.warn(message)')
     else:
         rep.fail('C15.R1', pe.site, '_parse_error = raise if strict else warn',
-                 'the diagnostics funnel no longer raises in strict mode exactly where it warns in lenient mode', where=pe.where)
+                 'the diagnostics funnel no longer raises in strict mode exactly where it warns in lenient mode: ' + why, where=pe.where)
     f = src.func(M + ':Changelog.parse_changelog')
     rep.saw_func(f)
     calls = [c for c in calls_in(f.node) if norm(c.func) == 'self._parse_error']
@@ -128,6 +153,23 @@ def r3_no_other_escape(rep, src, model):
     lv = model.linevar
     n_split = 0
     for c in walk_no_nested(model.fnode):
+        if isinstance(c, ast.Call) and isinstance(c.func, ast.Attribute) and c.func.attr in ('partition', 'rpartition') and norm(c.func.value) == lv and len(c.args) == 1:
+            # partition always yields three parts: indexing 0..2 / unpacking into three names cannot fail
+            par = c._parent
+            what = norm(par)[:60]
+            if isinstance(par, ast.Subscript) and par.value is c and isinstance(par.slice, ast.Constant) and isinstance(par.slice.value, int):
+                n_split += 1
+                if -3 <= par.slice.value <= 2:
+                    rep.ok('C15.R3', f.site, what, 'partition is total: three parts for every line')
+                else:
+                    rep.fail('C15.R3', f.site, what, 'index %d of a partition never exists: IndexError' % par.slice.value, where='%s:%d' % (f.module.relpath, c.lineno))
+            elif isinstance(par, ast.Assign) and par.value is c and isinstance(par.targets[0], (ast.Tuple, ast.List)):
+                n_split += 1
+                if len(par.targets[0].elts) == 3:
+                    rep.ok('C15.R3', f.site, what, 'partition is total: three parts for every line')
+                else:
+                    rep.fail('C15.R3', f.site, what, 'a partition never yields %d parts: ValueError' % len(par.targets[0].elts), where='%s:%d' % (f.module.relpath, c.lineno))
+            continue
         if not (isinstance(c, ast.Call) and isinstance(c.func, ast.Attribute) and c.func.attr in ('split', 'rsplit') and norm(c.func.value) == lv):
             continue
         if not (c.args and isinstance(c.args[0], ast.Constant) and isinstance(c.args[0].value, str) and len(c.args[0].value) == 1):
